@@ -82,7 +82,7 @@ CHECKS = {
    note=TRUST + "a separator that would glue two lexemes (or merge two string literals) is not a layout.", ref="DESIGN.md sec. 5/C19"),
  "C20": dict(cat="exploration", engine="reject",
    tech="TLA+ static rules (Reject.tla over the PoryLang node tables) evaluated by TLC on the outcome of the real compiler",
-   text="break and continue inserted at every position of every block of the GenCtl family and seeded programs (legal and illegal): rejected iff Reject.tla says illegal, on the line of the first offending keyword; duplicate cases, two defaults, redefined constants, text/movement/label clashes with generated names, each with non-violating twins, at nesting depths 0-3 with shifted line numbers; error lines also through the real binary for sources with leading blank / CRLF / comment lines.",
+   text="break and continue inserted at every position of every block of the GenCtl family and seeded programs (legal and illegal): rejected iff Reject.tla says illegal, on the line of the first offending keyword; duplicate cases, two defaults, redefined constants, text/movement/label clashes with generated names, each with non-violating twins, at nesting depths 0-3 with shifted line numbers, also in large switches and scripts; StmtReject.tla: every small program (all macro-token strings up to length 4 (5), structured ones up to 6 (7)) with exactly one listed violation must be rejected on the line of the offending token; error lines also through the real binary for sources with leading blank / CRLF / comment lines.",
    note=TRUST + "continue at the end of a non-final case body is exempt (parser documented stricter).", ref="DESIGN.md sec. 5/C20"),
  "C11": dict(cat="model_checking", engine="refine",
    tech="TLA+ product exploration with AutoVar leaves as command+read",
